@@ -117,6 +117,12 @@ func rsaBlind(kind int, n *big.Int, label string) []byte {
 		return []byte{3}
 	case 4:
 		return []byte{1, 0, 1}
+	case 6: // a value below N in 257 bytes: leading zero byte in front of the full-width form (type 2 only)
+		v := new(big.Int).SetBytes(mc.Fill(seedBase, "rb-"+label, 300))
+		v.Mod(v, n)
+		return append([]byte{0}, v.FillBytes(make([]byte, (n.BitLen()+7)/8))...)
+	case 7: // N-1
+		return new(big.Int).Sub(n, big.NewInt(1)).Bytes()
 	default:
 		v := new(big.Int).SetBytes(mc.Fill(seedBase, "rb-"+label, 300))
 		v.Mod(v, n)
@@ -565,7 +571,10 @@ func main() {
 					}
 				}
 			}
-			for bl := 1; bl <= 5; bl++ {
+			for bl := 1; bl <= 7; bl++ {
+				if t != 2 && bl > 5 {
+					continue
+				}
 				for _, cl := range []int{0, 32} {
 					cases = append(cases, P{T: t, Key: k, CL: cl, NK: 2, Seed: 0, Blind: bl})
 				}
